@@ -157,6 +157,19 @@ func metaDoc(c model.MetaCfg, format string, t *fixture.Tree) fixture.Doc {
 			d[k] = b
 		}
 	}
+	if c.UnrelatedOverride {
+		ov, _ := d["overrides"].(map[string]any)
+		if ov == nil {
+			ov = map[string]any{}
+			d["overrides"] = ov
+		}
+		fo, _ := ov[format].(map[string]any)
+		if fo == nil {
+			fo = map[string]any{}
+			ov[format] = fo
+		}
+		fo["umask"] = 0o022
+	}
 	if c.Changelog {
 		d["changelog"] = filepath.Join(t.Root, "changelog.yaml")
 	}
@@ -430,6 +443,12 @@ func enumC02(env *engine.Env, yield func(any) bool) {
 		if !emit("rel8", c) {
 			return
 		}
+		// the same lists in the base settings while the format has an override block that sets something unrelated
+		c.UnrelatedOverride = true
+		if !emit("rel8-unrelated-override", c) {
+			return
+		}
+		c.UnrelatedOverride = false
 		// the same lists configured in the override block of the format (decoys in the base settings)
 		c.RelInOverride = true
 		if !emit("rel8-override", c) {
@@ -561,6 +580,10 @@ func enumC02(env *engine.Env, yield func(any) bool) {
 		ex(&call)
 	}
 	if !emit("extras-all", call) {
+		return
+	}
+	call.UnrelatedOverride = true
+	if !emit("extras-all-unrelated-override", call) {
 		return
 	}
 }
